@@ -244,6 +244,14 @@ func (e *Env) expr(x ast.Expr) Val {
 		}
 		sn := cx.sortOf(t)
 		return Val{S: fmt.Sprintf("(mk_%s %s)", sn, strings.Join(fs, " ")), T: t}
+	case *ast.TypeAssertExpr:
+		// x.(*T): the payload of the interface value, read as a *T (the clause must guard it with isType)
+		v := e.expr(x.X)
+		t := e.typeOf(x)
+		if _, ok := t.Underlying().(*types.Pointer); !ok {
+			e.fail(x, "type assertion to a non-pointer type in a specification")
+		}
+		return Val{S: fmt.Sprintf("(if_val %s)", v.S), T: t}
 	case *ast.CallExpr:
 		return e.call(x)
 	}
@@ -538,6 +546,15 @@ func (e *Env) call(x *ast.CallExpr) Val {
 			return Val{S: "true", T: types.Typ[types.Bool]}
 		}
 		return Val{S: "false", T: types.Typ[types.Bool]}
+	case "isType":
+		// isType[*T](x): the dynamic type of interface value x is *T
+		v := e.expr(x.Args[0])
+		ix, ok := x.Fun.(*ast.IndexExpr)
+		if !ok {
+			e.fail(x, "isType[T](x) needs an explicit type argument")
+		}
+		t := e.typeOf(ix.Index)
+		return Val{S: fmt.Sprintf("(= (if_tag %s) %s)", v.S, cx.num(int64(cx.tagOf(t)))), T: types.Typ[types.Bool]}
 	case "eq":
 		a, b := e.expr(x.Args[0]), e.expr(x.Args[1])
 		return Val{S: fmt.Sprintf("(= %s %s)", a.S, b.S), T: types.Typ[types.Bool]}
